@@ -108,8 +108,9 @@ Definition word_occurs_at (w t : list N) (o : nat) : bool :=
   occurs_at true w t o && boundary_at t o && boundary_at t (o + length w).
 Definition word_ref (w t : list N) : bool := existsb (word_occurs_at w t) (seq 0 (S (length t))).
 
-(** wordMatchTree.matches (matchtree.go:847): bytes.Index loop; after every occurrence, accepted or not, the scan
-    resumes behind it (offset += idx + len(word)). fuel = |t| + 1. *)
+(** wordMatchTree.matches (matchtree.go:847, after the fix commits 260937d / d7a2c44): bytes.Index loop; an occurrence
+    is accepted when both ends are word/non-word transitions; after an accepted occurrence the scan resumes behind it,
+    after a rejected one at its second byte. fuel = |t| + 1 (every round advances the offset; the word is not empty). *)
 Fixpoint index_from (w t : list N) (o : nat) (fuel : nat) : option nat :=
   match fuel with
   | 0 => None
@@ -123,10 +124,8 @@ Fixpoint word_scan (w t : list N) (off : nat) (fuel : nat) : list nat :=
       | None => []
       | Some s =>
           let e := s + length w in
-          let sb := (s <? length t) && (match s with 0 => true | S j => negb (wordc (rune_at t j)) end) in
-          let eb := (0 <? e) && ((e =? length t) || negb (wordc (rune_at t e))) in
-          let rest := if length w =? 0 then [] else word_scan w t e f in   (* an empty word would loop forever in Go; unreachable (OpLiteral is never empty) *)
-          if sb && eb then s :: rest else rest
+          if boundary_at t s && boundary_at t e then s :: word_scan w t e f
+          else word_scan w t (S s) f
       end
   end.
 Definition word_found (w t : list N) : bool :=
@@ -345,7 +344,7 @@ Fixpoint distill (cs fn : bool) (r : rx) : mt * bool * bool :=
 Definition word_of (r : rx) (topfold cs : bool) : option (list N) :=
   if cs && negb topfold then
     match r with
-    | RConcat [RWordB; RLit w _; RWordB] => Some w
+    | RConcat [RWordB; RLit w false; RWordB] => Some w      (* a literal with its own FoldCase flag is left to the engine (cae2348) *)
     | _ => None
     end
   else None.
